@@ -57,9 +57,15 @@ Section Seq.
 
   Definition period (now : Z) : Z := Z.quot now LogFile_kRollPerSeconds * LogFile_kRollPerSeconds.
 
+  (* the guard of LogFile::rollFile, `now > lastRoll_` in the pinned tree; the comparison operator is
+     the regenerated fact Gen_C16.LogFile_roll_guard_is_gt (false = `>=`), so that the model keeps
+     following the code when the guard is changed -- the theorems then lose their premise *)
+  Definition roll_test (last now : Z) : bool :=
+    if LogFile_roll_guard_is_gt then last <? now else last <=? now.
+
   (* LogFile::rollFile with time(NULL) = now *)
   Definition roll (now : Z) (s : lf) : lf * bool :=
-    if lastRoll s <? now
+    if roll_test (lastRoll s) now
     then (mkLF ((now, []) :: files s) 0 (cnt s) (period now) now now (nflush s), true)
     else (s, false).
 
@@ -145,16 +151,24 @@ Arguments handed {A} o. Arguments op_error {A} o. Arguments op_record {A} o.
 (* shape parameters; [current_params] are the values regenerated from /repo *)
 Record params := mkParams {
   p_drain : bool;    (* a final swap-and-write of currentBuffer_/buffers_ follows the loop *)
+  p_fit_gt : bool;   (* AsyncLogging::append tests `currentBuffer_->avail() > len` (false: `>=`) *)
   p_cap : Z;         (* kLargeBuffer *)
   p_thr : nat;       (* buffersToWrite.size() > 25 *)
   p_keep : nat;      (* erase(begin()+2, end()) *)
   p_rkeep : nat      (* resize(2) *)
 }.
 
+(* `size() >= L` is `size() > L-1` *)
 Definition current_params : params :=
-  mkParams AsyncLogging_drain_after_loop LogStream_kLargeBuffer
-           (Z.to_nat AsyncLogging_drop_threshold) (Z.to_nat AsyncLogging_drop_keep)
+  mkParams AsyncLogging_drain_after_loop AsyncLogging_append_fit_is_gt LogStream_kLargeBuffer
+           (Z.to_nat (if AsyncLogging_drop_threshold_is_gt then AsyncLogging_drop_threshold
+                      else AsyncLogging_drop_threshold - 1))
+           (Z.to_nat AsyncLogging_drop_keep)
            (Z.to_nat AsyncLogging_recycle_keep).
+
+(* the same shape with / without the drain after the loop (the two trees of finding F-8) *)
+Definition with_drain (d : bool) (p : params) : params :=
+  mkParams d (p_fit_gt p) (p_cap p) (p_thr p) (p_keep p) (p_rkeep p).
 
 Definition params_ok (p : params) : bool :=
   (2 <=? p_keep p)%nat && (2 <=? p_rkeep p)%nat && (p_keep p <=? p_thr p)%nat && (0 <? p_cap p).
@@ -194,6 +208,7 @@ Section Async.
   Record backend_t := mkBe { pc : bpc; nb1 : bool; nb2 : bool; twn : nat; fault : bool }.
   Record ghost_t := mkGh {
     hist : list R;               (* records in the order of the front-end critical sections *)
+    owner : list nat;            (* the thread that appended each of them (same length as hist) *)
     mark : option nat;           (* length hist when stop() stored running_ = false *)
     swapmark : nat;              (* length hist at the back-end's latest swap *)
     batches : list (list buf);   (* batches swapped out inside the loop, oldest first *)
@@ -206,17 +221,20 @@ Section Async.
 
   Definition init (programs : list (list R)) : ast :=
     mkA (mkSh empty_buf true [] true) (mkBe PStart true true 0 false)
-        (mkGh [] None 0 [] [] [] [] false) programs.
+        (mkGh [] [] None 0 [] [] [] [] false) programs.
 
   (* AsyncLogging::append: one critical section *)
+  Definition fits (r : R) (b : buf) : bool :=
+    if p_fit_gt P then rlen r <? p_cap P - blen b else rlen r <=? p_cap P - blen b.
+
   Definition fe_append (r : R) (s : shared_t) : shared_t :=
-    if rlen r <? p_cap P - blen (cur s)
+    if fits r (cur s)
     then mkSh (buf_append (cur s) r) (nxt s) (bufs s) (running s)
     else mkSh (buf_append empty_buf r) false (bufs s ++ [cur s]) (running s).
          (* nextBuffer_ taken if present, else a new Buffer; cond_.notify() has no effect on the state *)
 
   Definition emit (e : list oev) (g : ghost_t) : ghost_t :=
-    mkGh (hist g) (mark g) (swapmark g) (batches g) (fbatch g) (dropped g) (out g ++ e) (joined g).
+    mkGh (hist g) (owner g) (mark g) (swapmark g) (batches g) (fbatch g) (dropped g) (out g ++ e) (joined g).
 
   (* the part of the back-end's critical section after the (possible) wait:
      buffers_.push_back(move(currentBuffer_)); currentBuffer_ = move(newBuffer1);
@@ -227,7 +245,7 @@ Section Async.
     mkA (mkSh empty_buf true [] (running (sh s)))
         (mkBe (if (p_thr P <? length batch)%nat then PAnn batch else PWrite batch false)
               false (if nxt (sh s) then nb2 (be s) else false) (length batch) (fault (be s)))
-        (mkGh (hist g) (mark g) (length (hist g)) (batches g ++ [batch]) (fbatch g) (dropped g) (out g) (joined g))
+        (mkGh (hist g) (owner g) (mark g) (length (hist g)) (batches g ++ [batch]) (fbatch g) (dropped g) (out g) (joined g))
         (progs s).
 
   (* repaired shape: the same hand-over once more after the loop, no valve *)
@@ -236,7 +254,7 @@ Section Async.
     let g := gh s in
     mkA (mkSh empty_buf (nxt (sh s)) [] (running (sh s)))
         (mkBe (PWrite batch true) false (nb2 (be s)) (length batch) (fault (be s)))
-        (mkGh (hist g) (mark g) (length (hist g)) (batches g) batch (dropped g) (out g) (joined g))
+        (mkGh (hist g) (owner g) (mark g) (length (hist g)) (batches g) batch (dropped g) (out g) (joined g))
         (progs s).
 
   Definition set_be (b : backend_t) (s : ast) : ast := mkA (sh s) b (gh s) (progs s).
@@ -271,7 +289,7 @@ Section Async.
         Some (mkA (sh s)
                   (mkBe (PWrite (firstn (p_keep P) batch) false) (nb1 (be s)) (nb2 (be s))
                         (Nat.min (p_keep P) (length batch)) (fault (be s)))
-                  (mkGh (hist g) (mark g) (swapmark g) (batches g) (fbatch g)
+                  (mkGh (hist g) (owner g) (mark g) (swapmark g) (batches g) (fbatch g)
                         (dropped g ++ skipn (p_keep P) batch) (out g) (joined g))
                   (progs s))
     | PWrite (b :: rest) fin =>
@@ -306,7 +324,7 @@ Section Async.
         | Some (r :: rest) =>
             let g := gh s in
             Some (mkA (fe_append r (sh s)) (be s)
-                      (mkGh (hist g ++ [r]) (mark g) (swapmark g) (batches g) (fbatch g) (dropped g) (out g) (joined g))
+                      (mkGh (hist g ++ [r]) (owner g ++ [t]) (mark g) (swapmark g) (batches g) (fbatch g) (dropped g) (out g) (joined g))
                       (upd_nth t rest (progs s)))
         | _ => None
         end
@@ -317,7 +335,7 @@ Section Async.
         | None =>
             let g := gh s in
             Some (mkA (mkSh (cur (sh s)) (nxt (sh s)) (bufs (sh s)) false) (be s)
-                      (mkGh (hist g) (Some (length (hist g))) (swapmark g) (batches g) (fbatch g) (dropped g) (out g) (joined g))
+                      (mkGh (hist g) (owner g) (Some (length (hist g))) (swapmark g) (batches g) (fbatch g) (dropped g) (out g) (joined g))
                       (progs s))
         end
     | LJoin =>
@@ -325,7 +343,7 @@ Section Async.
         | Some _, PDone, false =>
             let g := gh s in
             Some (mkA (sh s) (be s)
-                      (mkGh (hist g) (mark g) (swapmark g) (batches g) (fbatch g) (dropped g) (out g) true)
+                      (mkGh (hist g) (owner g) (mark g) (swapmark g) (batches g) (fbatch g) (dropped g) (out g) true)
                       (progs s))
         | _, _, _ => None
         end
@@ -376,6 +394,44 @@ Section Async.
      then the flush after the loop *)
   Definition final_out (g : ghost_t) : list oev :=
     flat_map render_batch (batches g) ++ map OBuf (fbatch g) ++ [OFlush].
+
+  (* the back-end has left its loop for good *)
+  Definition pc_final (p : bpc) : bool :=
+    match p with PWrite _ true | PDone => true | _ => false end.
+
+  (* what the back-end, parked at [p], still has to do for the batch it is working on *)
+  Definition pending (p : bpc) : list oev :=
+    match p with
+    | PAnn batch => render_batch batch
+    | PWriteAnn batch => OFileAnn (length batch - p_keep P) :: map OBuf (firstn (p_keep P) batch) ++ [OFlush]
+    | PWrite todo _ => map OBuf todo ++ [OFlush]
+    | _ => []
+    end.
+
+  (* the part of [final_out] that belongs to the time after the loop *)
+  Definition fin_part (s : ast) : list oev :=
+    if pc_final (pc (be s)) then map OBuf (fbatch (gh s)) ++ [OFlush] else [].
+
+  (* the buffers of the batch in work that the valve is about to erase *)
+  Definition dropping (p : bpc) : list buf :=
+    match p with PAnn batch | PWriteAnn batch => skipn (p_keep P) batch | _ => [] end.
+
+  (* the records thread t has appended so far, in the order of its critical sections *)
+  Definition per_thread (t : nat) (g : ghost_t) : list R :=
+    map snd (filter (fun x => Nat.eqb (fst x) t) (combine (owner g) (hist g))).
+
+  (* the property text, last sentence, in full: stop() has returned => the back-end has finished; every
+     record appended before the call is in a batch the back-end took; every batch of the loop was
+     rendered by [render_batch] (written, except the announced overload drops), the final batch was
+     written entirely; the last thing done is a flush; the erased buffers are exactly the [dropped_of] *)
+  Definition stop_flushed_full (s : ast) : Prop :=
+    joined (gh s) = true ->
+    exists m rest,
+      mark (gh s) = Some m /\ (m <= length (hist (gh s)))%nat /\
+      taken (gh s) = firstn m (hist (gh s)) ++ rest /\
+      pc (be s) = PDone /\
+      out (gh s) = final_out (gh s) /\
+      dropped (gh s) = flat_map dropped_of (batches (gh s)).
 End Async.
 
 Arguments mkBuf {R} recs blen. Arguments recs {R} b. Arguments blen {R} b.
@@ -386,14 +442,37 @@ Arguments PWriteAnn {R} batch. Arguments PWrite {R} todo fin. Arguments PFinalLo
 Arguments mkSh {R} cur nxt bufs running. Arguments cur {R} s. Arguments nxt {R} s. Arguments bufs {R} s. Arguments running {R} s.
 Arguments mkBe {R} pc nb1 nb2 twn fault. Arguments pc {R} b. Arguments nb1 {R} b. Arguments nb2 {R} b.
 Arguments twn {R} b. Arguments fault {R} b.
-Arguments mkGh {R} hist mark swapmark batches fbatch dropped out joined.
-Arguments hist {R} g. Arguments mark {R} g. Arguments swapmark {R} g. Arguments batches {R} g.
+Arguments mkGh {R} hist owner mark swapmark batches fbatch dropped out joined.
+Arguments hist {R} g. Arguments owner {R} g. Arguments mark {R} g. Arguments swapmark {R} g. Arguments batches {R} g.
 Arguments fbatch {R} g. Arguments dropped {R} g. Arguments out {R} g. Arguments joined {R} g.
 Arguments mkA {R} sh be gh progs. Arguments sh {R} a. Arguments be {R} a. Arguments gh {R} a. Arguments progs {R} a.
 Arguments init {R} programs.
 Arguments flat {R} l.
 Arguments written_of {R} o.
 Arguments taken {R} g.
+Arguments pc_final {R} p.
+Arguments per_thread {R} t g.
+
+(* ---- (ii) on top of (i): the back-end's output events as LogFile operations (specification only) ---- *)
+Section Compose.
+  Variables (R A : Type) (bytes : R -> list A).
+
+  (* buffer->data(), buffer->length(): the records copied into it, back to back *)
+  Definition buf_bytes (b : buf R) : list A := concat (map bytes (recs b)).
+
+  (* one event = the LogFile operations it consists of (with arbitrary stdio / clock behaviour) and the
+     bytes it appends: a buffer is ONE append of its bytes, the announcement is one append of some line *)
+  Inductive ev_op : oev R -> list (sop_t A) -> list A -> Prop :=
+  | eo_buf b env now now2 : ev_op (OBuf b) [SAppend (buf_bytes b) env now now2] (buf_bytes b)
+  | eo_ann n line env now now2 : ev_op (OFileAnn n) [SAppend line env now now2] line
+  | eo_flush : ev_op OFlush [SFlush] []
+  | eo_stderr n : ev_op (OStderr n) [] [].
+
+  Inductive evs_ops : list (oev R) -> list (sop_t A) -> list (list A) -> Prop :=
+  | eos_nil : evs_ops [] [] []
+  | eos_cons e o ch es os chs : ev_op e o ch -> evs_ops es os chs -> evs_ops (e :: es) (o ++ os) (ch :: chs).
+End Compose.
+Arguments buf_bytes {R A} bytes b.
 
 (* ---- instance used by the extracted runner: a record = (thread, sequence number, length) ---- *)
 Definition xrec := (nat * nat * Z)%type.
